@@ -6,14 +6,14 @@ def fmt(v):
     return ",".join(str(x) for x in v) if v else "-"
 
 
-def label_to_line(lab, rng):
+def label_to_line(lab, rng, no_list=False):
     name, args = core.parse_label(lab)
     if name == "CreateFrom":
-        return "CreateFrom %d %s %d" % (args[0], fmt(args[1]), 1 if len(args[1]) <= 5 and rng.random() < 0.5 else 0)
+        return "CreateFrom %d %s %d" % (args[0], fmt(args[1]), 1 if not no_list and len(args[1]) <= 5 and rng.random() < 0.5 else 0)
     return " ".join([name] + [str(a) for a in args])
 
 
-def queries(rng, st, kind):
+def queries(rng, st, kind, old_vec=False):
     out = []
     for c in (0, 1):
         if not st["ex"][str(c)] if isinstance(st["ex"], dict) and str(c) in st["ex"] else not st["ex"][c]:
@@ -23,16 +23,17 @@ def queries(rng, st, kind):
         if n:
             out.append("Index %d %d" % (c, rng.randrange(n))); out.append("Front %d" % c); out.append("Back %d" % c)
         if kind == "vec":
-            out.append("At %d %d" % (c, rng.randrange(0, n + 2)))
+            if not old_vec: out.append("At %d %d" % (c, rng.randrange(0, n + 2)))
             other = 1 - c
             ok = st["ex"][other]
             if ok:
-                out.append("Eq %d %d" % (c, other)); out.append("Less %d %d" % (c, other))
+                out.append("Eq %d %d" % (c, other))
+                if not old_vec: out.append("Less %d %d" % (c, other))
             out.append("Eq %d %d" % (c, c))
     return out
 
 
-def graph_scripts(ctx, g, kinds, keep=False):
+def graph_scripts(ctx, g, kinds, keep=False, old_vec=False):
     """kinds: list of (kind, elem); the graph's cap selects vec (0) or svec (N); keep selects the walks of that flavour"""
     walks, ncov, total = core.edge_cover_walks(g, ctx.rng, max_len=200)
     out = []
@@ -46,16 +47,16 @@ def graph_scripts(ctx, g, kinds, keep=False):
                 continue
             out.append("R %s %s %d" % (kind, elem, cap))
             for (lab, s, d) in w:
-                out.append(label_to_line(lab, ctx.rng))
+                out.append(label_to_line(lab, ctx.rng, no_list=old_vec))
                 if ctx.rng.random() < 0.15:
                     st = core.parse_state(g.state[d])
-                    qs = queries(ctx.rng, st, kind)
+                    qs = queries(ctx.rng, st, kind, old_vec)
                     if qs: out.append(ctx.rng.choice(qs))
             out.append("End")
     return out, ncov, total
 
 
-def random_script(rng, kind, elem, cap, nops, old_iface=False):
+def random_script(rng, kind, elem, cap, nops, old_iface=False, old_vec=False):
     """old_iface: the std_portable static_vector (no range/list constructor, no erase; its move constructor keeps the source's size)"""
     lines = ["R %s %s %d" % (kind, elem, cap)]
     ex = [False, False]; el = [[], []]
@@ -69,7 +70,7 @@ def random_script(rng, kind, elem, cap, nops, old_iface=False):
             elif (r < 0.7 or not ex[d]) and old_iface: lines.append("Create %d" % c); ex[c] = True; el[c] = []
             elif r < 0.7 or not ex[d]:
                 s = [rng.randrange(1, 100) for _ in range(rng.randrange(0, (2 * cap + 1) if cap else 7))]
-                il = 1 if len(s) <= 5 and rng.random() < 0.5 else 0
+                il = 1 if not old_vec and len(s) <= 5 and rng.random() < 0.5 else 0
                 lines.append("CreateFrom %d %s %d" % (c, fmt(s), il)); ex[c] = True; el[c] = cut(s)
             elif r < 0.85: lines.append("CopyCtor %d %d" % (c, d)); ex[c] = True; el[c] = list(el[d])
             else:
@@ -97,7 +98,7 @@ def random_script(rng, kind, elem, cap, nops, old_iface=False):
         else:
             if n: lines.append("Index %d %d" % (c, rng.randrange(n)))
             if kind == "vec":
-                lines.append("At %d %d" % (c, rng.randrange(0, n + 2)))
-                if ex[d]: lines.append("%s %d %d" % (rng.choice(["Eq", "Less"]), c, d))
+                if not old_vec: lines.append("At %d %d" % (c, rng.randrange(0, n + 2)))
+                if ex[d]: lines.append("%s %d %d" % (rng.choice(["Eq"] if old_vec else ["Eq", "Less"]), c, d))
     lines.append("End")
     return lines
